@@ -4,13 +4,14 @@ import (
 	"fmt"
 
 	"github.com/hknutzen/Netspoc-Approve/go/pkg/deviceconf"
+	"github.com/hknutzen/Netspoc-Approve/go/pkg/errlog"
 )
 
 // MergeSpoc merges two configurations read from Netspoc.
 // c2 is either read from a raw file or it is a IPv6 configuration.
 func (p1 *PanConfig) MergeSpoc(c2 deviceconf.Config) deviceconf.Config {
 	p2 := c2.(*PanConfig)
-	processVsysPairs(p1, p2, func(v1, v2 *panVsys) error {
+	err := processVsysPairs(p1, p2, func(v1, v2 *panVsys) error {
 		// Create empty vsys in p1 to add complete vsys from p2 below.
 		if v1 == nil {
 			if p1 == nil || p1.Devices == nil || len(p1.Devices.Entries) == 0 {
@@ -46,6 +47,9 @@ func (p1 *PanConfig) MergeSpoc(c2 deviceconf.Config) deviceconf.Config {
 		}
 		return nil
 	})
+	if err != nil {
+		errlog.Abort("%v", err)
+	}
 	return p1
 }
 
